@@ -545,3 +545,60 @@ let () = register "c19col" (fun line ->
   match S.split_on_char ' ' line with
   | _ :: steps -> S.concat " " (L.map (fun _ -> "ok") steps)
   | _ -> "")
+
+(* ---------------- C08: configuration store and controller ---------------- *)
+let c08_ep tok =
+  let b = S.length tok > 0 && Stdlib.String.get tok (S.length tok - 1) = 'b' in
+  let a = if b then S.sub tok 0 (S.length tok - 1) else tok in
+  { ConfigStore.eaddr = n_of_int (int_of_string a); ebackup = b }
+let c08_eps s = if s = "" then [] else L.map c08_ep (L.filter (fun x -> x <> "") (S.split_on_char ',' s))
+let c08_cfg tok =
+  let v = Stdlib.String.get tok (S.length tok - 1) = 'v' in
+  { ConfigStore.cid = n_of_int (int_of_string (S.sub tok 0 (S.length tok - 1))); cvalid = v }
+let c08_names s = if s = "" then [] else L.map (fun x -> n_of_int (int_of_string x)) (L.filter (fun x -> x <> "") (S.split_on_char ',' s))
+
+let c08_parse op =
+  let body = S.sub op 1 (S.length op - 1) in
+  match Stdlib.String.get op 0 with
+  | 'S' -> (match S.split_on_char ':' body with
+      | [n; c; e] -> ConfigStore.OStatic (n_of_int (int_of_string n), Some (c08_cfg c), Some (c08_eps e))
+      | _ -> failwith "bad S")
+  | 'D' -> (match S.split_on_char '/' body with
+      | [a; r] -> ConfigStore.ODep (c08_names a, c08_names r) | _ -> failwith "bad D")
+  | 'C' -> (match S.split_on_char ':' body with
+      | [n; c] -> ConfigStore.OCfg (n_of_int (int_of_string n), c08_cfg c) | _ -> failwith "bad C")
+  | 'E' -> (match S.split_on_char ':' body with
+      | [n; ar] -> (match S.split_on_char '/' ar with
+          | [a; r] -> ConfigStore.OEp (n_of_int (int_of_string n), c08_eps a, c08_eps r) | _ -> failwith "bad E")
+      | _ -> failwith "bad E")
+  | _ -> failwith "bad op"
+
+let c08_dump (c : ConfigStore.ctl) =
+  let names = L.init 12 (fun i -> i) in
+  let rows = L.filter_map (fun i -> match c (n_of_int i) with
+    | None -> None
+    | Some p ->
+      let hs = L.sort compare (L.map (fun e -> dec_of_n e.ConfigStore.eaddr ^ (if e.ConfigStore.ebackup then "b" else "")) p.ConfigStore.p_hosts) in
+      Some (Printf.sprintf "%d=%s[%s]" i (dec_of_n p.ConfigStore.p_cfg.ConfigStore.cid) (S.concat "," hs))) names in
+  S.concat " " (L.sort compare rows)
+
+let () = register "c08" (fun line ->
+  let ops = L.map c08_parse (L.filter (fun x -> x <> "") (S.split_on_char ' ' line)) in
+  (* static services first, as the bootstrap does *)
+  let (st, dyn) = L.partition (fun o -> match o with ConfigStore.OStatic _ -> true | _ -> false) ops in
+  let (_, c) = ConfigStore.converge (st @ dyn) in
+  c08_dump c)
+
+(* the specification: one processor per service with a valid configuration and an endpoint list, holding the
+   latest configuration and the current endpoints *)
+let () = register "c08spec" (fun line ->
+  let ops = L.map c08_parse (L.filter (fun x -> x <> "") (S.split_on_char ' ' line)) in
+  let (st, dyn) = L.partition (fun o -> match o with ConfigStore.OStatic _ -> true | _ -> false) ops in
+  let (s, _) = ConfigStore.run_ops ConfigStore.empty_store (st @ dyn) in
+  let names = L.init 12 (fun i -> i) in
+  let rows = L.filter_map (fun i -> match s (n_of_int i) with
+    | Some { ConfigStore.s_cfg = Some c; s_eps = Some eps } when c.ConfigStore.cvalid ->
+      let hs = L.sort compare (L.map (fun e -> dec_of_n e.ConfigStore.eaddr ^ (if e.ConfigStore.ebackup then "b" else "")) eps) in
+      Some (Printf.sprintf "%d=%s[%s]" i (dec_of_n c.ConfigStore.cid) (S.concat "," hs))
+    | _ -> None) names in
+  S.concat " " (L.sort compare rows))
